@@ -375,6 +375,8 @@ func checkRecordPattern(c *Ctx, r *Report) {
 			case *ast.Ident:
 				if p.TypesInfo.Uses[rhs] == ps[1] {
 					roles["i"] = obj
+				} else if v, ok := constInt(p, rhs); ok && v == 0 { // a named constant 0
+					roles["cp"] = obj
 				}
 			case *ast.BasicLit:
 				if v, ok := constInt(p, rhs); ok && v == 0 {
